@@ -14,7 +14,7 @@ Requests
   instr <e>                          Model.ConstFold.onInstr   → ok skip | ok keep | ok replace <ty> <v> | ok rechain <ty> <v> | err <Exc>
   spec <e>                           Spec.ConstExpr.eval       → ok <v> | ok undef
   inrange <ty> <v>                   Spec.IRArith.InRange      → ok true | ok false
-  specchain <ty> <op> <y> <c1> <c2> <c3>   → ok <(y op c1) op c2> <y op c3>   (Spec values, `undef` possible)
+  specchain <ty> <op1> <op2> <y> <c1> <c2> <c3>   → ok <(y op1 c1) op2 c2> <y op2 c3>   (Spec values, `undef` possible)
   row <lo> <hi> <request with @>     the request for @ = lo..hi, replies joined with `|`
 -/
 open Proto
@@ -92,13 +92,13 @@ def step1 (ws : List String) : String :=
     match S.tyByName t, int? v with
     | some ty, some z => if Spec.IRArith.InRange ty z then "ok true" else "ok false"
     | _, _ => "bad-op"
-  | ["specchain", t, op, y, c1, c2, c3] =>
-    match S.tyByName t, S.opBySymbol op, int? y, int? c1, int? c2, int? c3 with
-    | some ty, some o, some y, some c1, some c2, some c3 =>
-      let lhs := (Spec.IRArith.binop ty o y c1).bind (fun t => Spec.IRArith.binop ty o t c2)
-      let rhs := Spec.IRArith.binop ty o y c3
+  | ["specchain", t, op1, op2, y, c1, c2, c3] =>
+    match S.tyByName t, S.opBySymbol op1, S.opBySymbol op2, int? y, int? c1, int? c2, int? c3 with
+    | some ty, some o1, some o2, some y, some c1, some c2, some c3 =>
+      let lhs := (Spec.IRArith.binop ty o1 y c1).bind (fun t => Spec.IRArith.binop ty o2 t c2)
+      let rhs := Spec.IRArith.binop ty o2 y c3
       s!"ok {S.showOpt lhs} {S.showOpt rhs}"
-    | _, _, _, _, _, _ => "bad-op"
+    | _, _, _, _, _, _, _ => "bad-op"
   | _ => "bad-op"
 
 def step (line : String) : String :=
